@@ -474,9 +474,27 @@ func (s *DiscoveryServer) DeltaAggregatedResources(stream discovery.AggregatedDi
 	return s.StreamDeltas(stream)
 }
 
+// notOlderThanLastPush returns the request to serve to the proxy: req itself, unless the proxy has already been
+// pushed a newer push context than the one req carries. A request is built from the global push context and
+// enqueued in two steps (ProxyUpdate, debug pushes); by the time it is served, a newer push context may have been
+// committed, fanned out and pushed. Serving the request as it is would take the proxy back to the older push
+// context and leave it there until the next push, so it is served on the proxy's push context instead.
+func notOlderThanLastPush(proxy *model.Proxy, req *model.PushRequest) *model.PushRequest {
+	proxy.RLock()
+	last := proxy.LastPushContext
+	proxy.RUnlock()
+	if !last.NewerThan(req.Push) {
+		return req
+	}
+	// The request may be shared with other connections, do not modify it.
+	onLast := *req
+	onLast.Push = last
+	return &onLast
+}
+
 // Compute and send the new configuration for a connection.
 func (s *DiscoveryServer) pushConnection(con *Connection, pushEv *Event) error {
-	pushRequest := pushEv.pushRequest
+	pushRequest := notOlderThanLastPush(con.proxy, pushEv.pushRequest)
 
 	if pushRequest.Forced || !model.OnlyHasConfigsOfKind(pushRequest.ConfigsUpdated, kind.Endpoints) {
 		// Update Proxy with current information.
